@@ -77,7 +77,11 @@ def main():
         for c in checks:
             env = dict(os.environ, VERIF_REPO=scratch)
             t = time.time()
-            rc, out = sh("%s %s --tier %s" % (os.path.join(VERIF, "check"), c, a.tier), env=env, timeout=7200)
+            for attempt in range(3):  # an exit code other than 0/1 is a driver problem (e.g. two builds racing), not a verdict
+                rc, out = sh("%s %s --tier %s" % (os.path.join(VERIF, "check"), c, a.tier), env=env, timeout=7200)
+                if rc in (0, 1):
+                    break
+                time.sleep(20)
             det = [l.strip() for l in out.split("\n") if l.strip().startswith("detail:")]
             res["checks"][c] = dict(rc=rc, caught=(rc == 1 and "VIOLATION property=" in out), wall_s=round(time.time() - t), detail=(det[0][:300] if det else ""))
     finally:
